@@ -213,3 +213,23 @@ func (p *Program) ContractFiles() []*ast.File {
 	})
 	return out
 }
+
+// FileImportName: the local name under which the file defining fn imports package imp ("" when not renamed or unknown).
+func (p *Program) FileImportName(fn *ssa.Function, imp *types.Package) string {
+	if fn == nil || fn.Syntax() == nil {
+		return ""
+	}
+	pos := fn.Syntax().Pos()
+	for _, pkg := range p.Pkgs {
+		for _, f := range pkg.Syntax {
+			if f.Pos() <= pos && pos <= f.End() {
+				for _, is := range f.Imports {
+					if strings.Trim(is.Path.Value, "\"") == imp.Path() && is.Name != nil {
+						return is.Name.Name
+					}
+				}
+			}
+		}
+	}
+	return ""
+}
